@@ -530,18 +530,22 @@ func main() {
 		lo, hi = *only, *only+1
 	}
 	for i := lo; i < hi; i++ {
+		out.Begin(map[string]interface{}{"mode": "scheduled", "case": i, "seed": *seed}) // a fatal runtime error (concurrent map access) ends the process: the case is then the failing input
 		c, d, cl, nt := runCase(*seed, i)
 		out.Case(c, d, cl, nt)
 	}
 	for i := 0; i < *stress; i++ {
+		out.Begin(map[string]interface{}{"mode": "stress", "case": i, "seed": *seed}) // a fatal runtime error (concurrent map access) ends the process: the case is then the failing input
 		c, d, cl, nt := stressCase(*seed, i)
 		out.Case(c, d, cl, nt)
 	}
 	for i := 0; i < *late; i++ {
+		out.Begin(map[string]interface{}{"mode": "close-against-late-pushes", "case": i, "seed": *seed}) // a fatal runtime error (concurrent map access) ends the process: the case is then the failing input
 		c, d, cl, nt := lateCase(*seed, i)
 		out.Case(c, d, cl, nt)
 	}
 	for i := 0; i < *storm; i++ {
+		out.Begin(map[string]interface{}{"mode": "close-storm", "case": i, "seed": *seed}) // a fatal runtime error (concurrent map access) ends the process: the case is then the failing input
 		c, d, cl, nt := stormCase(*seed, i)
 		out.Case(c, d, cl, nt)
 	}
